@@ -427,6 +427,33 @@ def _task_crypto(spec):
                     if res[0] != res[1]:
                         out["viol"].append({"signature": "C20|crypto|openssl-vs-botan|%s|%s" % (name, "outputs-differ" if res[0][:2] == res[1][:2] else "return-codes-differ"), "detail": {"len": n, "openssl": res[0], "botan": res[1]},
                                             "spec": spec, "history": [], "action": None})
+            elif name.startswith("agree:"):
+                # key agreement is deterministic: the derived value must be byte-identical in both backends, for an ordinary peer and for a peer whose
+                # shared secret starts with a zero byte (padding conventions of the two crypto libraries differ)
+                _, which = name.split(":")
+                T = [(C.CKA_CLASS, C.CKO_SECRET_KEY), (C.CKA_KEY_TYPE, C.CKK_GENERIC_SECRET), (C.CKA_TOKEN, False), (C.CKA_PRIVATE, False), (C.CKA_SENSITIVE, False), (C.CKA_EXTRACTABLE, True)]
+                for pname, suffix in [("ordinary", "peer")] + ([("leading-zero", "peer_lz")] if which != "x25519" else []):
+                    if which == "dh":
+                        peer = F.KEYS["dh1024" + suffix]
+                        kind, dm, vl = "dh_priv", mech(C.CKM_DH_PKCS_DERIVE, F.H(peer["y"])), 128
+                    elif which == "x25519":
+                        peer = F.KEYS["x25519peer"]
+                        kind, dm, vl = "x25519_priv", mech(C.CKM_ECDH1_DERIVE, ecdh_params(F.H(peer["rawpoint"]))), 32
+                    else:
+                        peer = F.KEYS[which + suffix]
+                        kind, dm, vl = which + "_priv", mech(C.CKM_ECDH1_DERIVE, ecdh_params(F.H(peer["rawpoint"]))), {"ec256": 32, "ec384": 48, "ec521": 66}[which]
+                    hs = both(lambda p, env: mk(p, env.s, kind, [(C.CKA_DERIVE, True)]))
+                    for vlen in (vl, 16):
+                        res = []
+                        for (ctx, env), h in zip(lanes, hs):
+                            r = ctx.p.DeriveKey(env.s, dm, h, T + [(C.CKA_VALUE_LEN, vlen)])
+                            val = ctx.p.get_attr(env.s, r["h"], C.CKA_VALUE)[1] if r["rv"] == 0 else None
+                            res.append((rvn(r), val.hex() if isinstance(val, (bytes, bytearray)) else None))
+                        out["programs"] += 1
+                        out["steps"] += 2
+                        if res[0] != res[1]:
+                            out["viol"].append({"signature": "C20|crypto|openssl-vs-botan|%s|%s-peer|%s" % (name, pname, "outputs-differ" if res[0][0] == res[1][0] else "return-codes-differ"),
+                                                "detail": {"value_len": vlen, "openssl": res[0], "botan": res[1]}, "spec": spec, "history": [], "action": None})
             elif name.startswith("sig:"):
                 _, sname = name.split(":")
                 kp, ku, mm, det, data = {"rsa-pkcs": ("rsa1024_priv", "rsa1024_pub", mech(C.CKM_SHA256_RSA_PKCS), True, msg(33)), "rsa-raw": ("rsa1024_priv", "rsa1024_pub", mech(C.CKM_RSA_PKCS), True, msg(20)),
@@ -550,6 +577,7 @@ def main(tier):
             cspecs = ["cipher:%s:%d" % (m, k) for m in ("aes-ecb", "aes-cbc", "aes-cbc-pad", "aes-ctr", "aes-gcm") for k in (16, 32)] + ["cipher:des3-cbc-pad:24", "cipher:des3-ecb:24"]
             cspecs += ["mac:%s" % h for h in ("md5", "sha1", "sha224", "sha256", "sha384", "sha512", "cmac-aes")] + ["digest:%s" % h for h in ("md5", "sha1", "sha256", "sha512")]
             cspecs += ["sig:%s" % x for x in ("rsa-pkcs", "rsa-raw", "rsa-pss", "ecdsa", "dsa-sha1", "eddsa")]
+            cspecs += ["agree:%s" % x for x in ("dh", "ec256", "ec384", "ec521", "x25519")]
             jobs += [(_task_crypto, c) for c in cspecs]
             for r in pool.imap_unordered(_run_job, jobs):
                 if r["harness"]:
